@@ -2,7 +2,7 @@
    Dual matrices (A, A') with (A,A')(B,B') = (AB, AB' + A'B): the second component of a rational matrix expression is its exact
    directional derivative (Lib/Dual.v).  Which formula each class reports is tied by tie/c11.py.  Statements only. *)
 From Coq Require Import QArith.
-Require Import Mici.Lib.QMat Mici.Lib.Dual.
+Require Import Mici.Lib.QMat Mici.Lib.Dual Mici.Lib.DualGrad.
 Open Scope Q_scope.
 
 (* the dual inverse (Xi, -Xi X' Xi) really is the inverse: derivative of the matrix inverse in any direction, all sizes *)
@@ -17,3 +17,46 @@ Theorem trifactor_grad_qf_correct : forall d L Li s v D, s * s == 1 -> is_inv d 
   meq 1 1 (dquad d L Li s v D) (grad_dot d Li s v D).
 Proof. exact Dual.trifactor_grad_qf_correct. Qed.
 Print Assumptions trifactor_grad_qf_correct.
+
+(* ---- every rational parametrisation of the differentiable classes (Lib/DualGrad.v) ----
+   dqf n X Xi v is v^T X^-1 v computed in dual-number arithmetic (X = M + eps M', Xi = M^-1, which dual_inverse_correct shows is
+   the dual inverse); its second component at (0,0) is the exact directional derivative.  contract G D = sum_ij G_ij D_ij is
+   what a reported gradient G predicts for the direction D.  All sizes, vectors, directions; M symmetric and invertible. *)
+
+(* factor-type parameters, M' = c (D K F^T + F K D^T) with K symmetric: TriangularFactoredDefiniteMatrix (F = L, K = I, c = sign),
+   DensePositiveDefiniteProductMatrix (F = rect_matrix, K = pos_def_matrix, c = 1), PositiveDefiniteLowRankUpdateMatrix with
+   respect to its factor matrix (K = inner_pos_def_matrix, c = sign): reported gradient  -2 c outer(M^-1 v, K F^T M^-1 v) *)
+Theorem factor_param_grad_qf_correct : forall n k M Mi F K D v c, is_inv n M Mi -> meq n n (mtr M) M -> meq k k (mtr K) K ->
+  du (dqf n {| re := M; du := mscal c (madd (mmul k D (mmul k K (mtr F))) (mmul k F (mmul k K (mtr D)))) |} Mi v) 0%nat 0%nat
+  == contract n k (factor_grad n k Mi F K v c) D.
+Proof. intros n k M Mi F K D v c Hi Hm HK. apply factor_grad_qf_correct; [exact (inv_sym n M Mi Hi Hm)|exact HK]. Qed.
+Print Assumptions factor_param_grad_qf_correct.
+
+(* the matrix is the parameter (DenseDefiniteMatrix, DensePositiveDefiniteMatrix): reported gradient  - outer(M^-1 v, M^-1 v) *)
+Theorem dense_param_grad_qf_correct : forall n M Mi D v, is_inv n M Mi -> meq n n (mtr M) M ->
+  du (dqf n {| re := M; du := D |} Mi v) 0%nat 0%nat == contract n n (dense_grad n Mi v) D.
+Proof. intros n M Mi D v Hi Hm. apply dense_grad_qf_correct. exact (inv_sym n M Mi Hi Hm). Qed.
+Print Assumptions dense_param_grad_qf_correct.
+
+(* diagonal parameters (DiagonalMatrix, PositiveDiagonalMatrix): reported gradient  - (M^-1 v)^2  elementwise *)
+Theorem diagonal_param_grad_qf_correct : forall n M Mi v dl, is_inv n M Mi -> meq n n (mtr M) M ->
+  du (dqf n {| re := M; du := mdiag dl |} Mi v) 0%nat 0%nat == sumn n (fun i => diag_grad n Mi v i * dl i).
+Proof. intros n M Mi v dl Hi Hm. apply diag_grad_qf_correct. exact (inv_sym n M Mi Hi Hm). Qed.
+Print Assumptions diagonal_param_grad_qf_correct.
+
+(* scalar parameter (ScaledIdentityMatrix, PositiveScaledIdentityMatrix), M = s I with s <> 0 (either sign): - sum(v^2) / s^2 *)
+Theorem scaled_identity_grad_qf_correct : forall n v s ds, ~ s == 0 ->
+  is_inv n (mscal s mI) (mscal (/ s) mI) /\
+  du (dqf n {| re := mscal s mI; du := mscal ds mI |} (mscal (/ s) mI) v) 0%nat 0%nat == scaled_grad n v s * ds.
+Proof. intros n v s ds Hs. split; [exact (scaled_is_inv n s Hs)|exact (scaled_grad_qf_correct n v s ds Hs)]. Qed.
+Print Assumptions scaled_identity_grad_qf_correct.
+
+(* the evaluator the correspondence check runs (it materialises intermediate matrices) computes that second component *)
+Theorem fast_evaluator_is_dual_derivative : forall n M Mi dM v, meq n n (mtr Mi) Mi ->
+  du (dqf n {| re := M; du := dM |} Mi v) 0%nat 0%nat == dqf_du_fast n Mi dM v.
+Proof. exact dqf_du_fast_correct. Qed.
+Print Assumptions fast_evaluator_is_dual_derivative.
+Theorem fast_contraction_is_reported_gradient : forall n k Mi F K v c D,
+  contract n k (factor_grad n k Mi F K v c) D == factor_contract_fast n k Mi F K v c D.
+Proof. exact factor_contract_fast_correct. Qed.
+Print Assumptions fast_contraction_is_reported_gradient.
